@@ -418,7 +418,7 @@ func (e *env) serveRaw(c net.Conn) {
 
 // ---------- generator ----------
 
-var statuses = []int64{200, 200, 200, 201, 404, 500, 503, 418}
+var statuses = []int64{200, 200, 200, 201, 404, 500, 503, 418, 203, 226, 451, 511, 599, 600, 799, 999} // any three-digit status from 200 up is relayed as it is
 var sizes = []int64{0, 1, 17, 100, 4096, 5000, 33000, 70000}
 
 func (c *comp) Gen(rng *rand.Rand, idx int, tier string, targeted bool) hlib.History {
@@ -540,7 +540,7 @@ func (c *comp) Run(h *hlib.History) ([]hlib.Mon, bool) {
 				hints = true
 				op = append([]int64{op[0], op[1] - 100}, op[2:]...)
 			}
-			if len(op) != 6 || op[1] < 0 || op[1] > 9 || op[2] < 200 || op[2] > 599 || op[3] < 0 || op[3] > 1<<20 || op[4] < 0 || op[4] > 1 || op[5] < 1 || op[5] > 16 {
+			if len(op) != 6 || op[1] < 0 || op[1] > 9 || op[2] < 200 || op[2] > 999 || op[3] < 0 || op[3] > 1<<20 || op[4] < 0 || op[4] > 1 || op[5] < 1 || op[5] > 16 {
 				return nil, false
 			}
 			x := &exchange{mode: int(op[1]), status: int(op[2]), bodyLen: int(op[3]), framing: int(op[4]), pieces: int(op[5]),
